@@ -149,6 +149,28 @@ type c17Case struct {
 	WithEOF  bool     `json:"with_eof"`
 	Seekable bool     `json:"seekable"`
 	Opts     readOpts `json:"opts"`
+	// CrossCap (transport streams whose first two packets are null packets): the result is also compared with the one
+	// read through a reader of the other kind (seekable / not). The third-party demultiplexer drops the first two
+	// packets of a stream it cannot rewind; here they hold nothing, so the byte sequence decides alone.
+	CrossCap bool `json:"cross_capability,omitempty"`
+}
+
+// tsNullPacket is a transport-stream packet of PID 0x1fff (stuffing).
+func tsNullPacket() []byte {
+	return append([]byte{0x47, 0x1f, 0xff, 0x10}, bytes.Repeat([]byte{0xff}, 184)...)
+}
+
+// widenTS makes every 188-byte packet extra bytes longer (192- and 204-byte packets exist), in the layout the
+// third-party demultiplexer understands: the sync byte, the extra bytes, then the rest of the packet.
+func widenTS(doc []byte, extra int) []byte {
+	var out []byte
+	for len(doc) >= 188 {
+		out = append(out, doc[0])
+		out = append(out, bytes.Repeat([]byte{0xff}, extra)...)
+		out = append(out, doc[1:188]...)
+		doc = doc[188:]
+	}
+	return append(out, doc...)
 }
 
 func init() { register("c17", checkC17) }
@@ -199,6 +221,14 @@ func checkC17(c c17Case) string {
 		if got := readCanon(c.Format, r, c.Opts); got != ref {
 			return fmt.Sprintf("%s document of %d bytes: the result read from a %s differs from the result read from a plain io.Reader delivering everything at once\n--- plain reader ---\n%s\n--- %s ---\n%s",
 				c.Format, len(c.Doc), name, clip(ref, 700), name, clip(got, 700))
+		}
+	}
+	if c.CrossCap && c.Format == "ts" {
+		o := c
+		o.Seekable = !c.Seekable
+		if got := readCanon(c.Format, o.reader(c.Chunks, c.WithEOF), c.Opts); got != ref {
+			return fmt.Sprintf("ts stream of %d bytes starting with two null packets: the result read through a reader that can%s rewind differs from the one read through a reader that can%s\n--- first ---\n%s\n--- other ---\n%s",
+				len(c.Doc), map[bool]string{true: "", false: "not"}[c.Seekable], map[bool]string{true: "", false: "not"}[o.Seekable], clip(ref, 700), clip(got, 700))
 		}
 	}
 	got := readCanon(c.Format, c.reader(c.Chunks, c.WithEOF), c.Opts)
@@ -512,8 +542,22 @@ func TestC17(t *testing.T) {
 				doc[rapid.IntRange(0, len(doc)-1).Draw(rt, "flipat")] ^= byte(1 << rapid.IntRange(0, 7).Draw(rt, "flipbit"))
 			}
 		}
-		c := c17Case{Format: format, Doc: doc, WithEOF: rapid.Bool().Draw(rt, "witheof"), Seekable: format != "ts" || rapid.Bool().Draw(rt, "seekable")}
-		if format == "ts" && rapid.Bool().Draw(rt, "pidopt") {
+		crossCap := false
+		if format == "ts" {
+			if rapid.IntRange(0, 2).Draw(rt, "nulllead") == 0 && len(doc) >= 188 && doc[0] == 0x47 {
+				doc = append(append(tsNullPacket(), tsNullPacket()...), doc...)
+				crossCap = true
+				ev.Label("ts-two-leading-null-packets-both-reader-kinds")
+			}
+			if w := rapid.SampledFrom([]int{0, 0, 4, 4, 16}).Draw(rt, "widepackets"); w > 0 {
+				doc = widenTS(doc, w)
+				ev.Label(fmt.Sprintf("ts-packets-of-%d-bytes", 188+w))
+			}
+		}
+		c := c17Case{Format: format, Doc: doc, WithEOF: rapid.Bool().Draw(rt, "witheof"), Seekable: format != "ts" || rapid.Bool().Draw(rt, "seekable"), CrossCap: crossCap}
+		if format == "ts" && (rapid.Bool().Draw(rt, "pidopt") || crossCap) {
+			// (finding the PID in the tables takes a second pass, which only a reader that can rewind allows: the
+			// comparison between the two kinds of reader is made with the PID given)
 			c.Opts.PID = ttxPID
 		}
 		if format == "stl" {
